@@ -12,6 +12,7 @@ abortable_parser's `StrIter` (its generic MIR), three families:
               separator that keeps the two apart yields the same non-whitespace token sequence, and every token's
               (line, column, offset) equals the position computed from the prefix (LF increments the line, CR does not)."""
 import os
+import re
 import sys
 import z3
 
@@ -328,7 +329,8 @@ def harness_layout(ctx, case):
             out['violations'].append({'key': 'C11:layout:sequence-depends-on-separator:%s' % sname,
                                       'what': 'tokens %r %r give %r with separator %s but %r with %s' % (a, c, seq, sname, base[1], base[0]), 'case': {'kind': 'tokenize', 'text': text}, 'expect': None})
             return out
-        frags = [a if not a.startswith('"') else a, c, ';']
+        # a float literal is three tokens (digits, dot, digits): the parser, not the tokenizer, assembles it
+        frags = [x for w in (a, c) for x in (re.split(r'(\.)', w) if re.fullmatch(r'\d+\.\d+', w) else [w])] + [';']
         want = ref_positions(text, frags)
         got = [(t[2], t[3], t[4]) for t in toks if t[0] != 'END']
         if got != want:
